@@ -1201,6 +1201,49 @@ def port_sharing(pair: int, act: int):
     cover("pair_%d" % pair)
 
 
+def port_survivor(pair: int, how: int):
+    """Two pieces of software share a port number; the EARLIER-installed one is stopped/closed or uninstalled: the one
+    that stays installed and RUNNING keeps its port open and its registry entry. (Independent of the recorded
+    open finding, which concerns acting on the LATER-installed one.)"""
+    assume(all_of(rng(pair, 1, len(SHARE_PAIRS) - 1), rng(how, 0, 1)))
+    first, second = pick(SHARE_PAIRS, pair)
+    sreg, areg = _registries()
+    with concrete():
+        w = _world(install=(first,))
+        sm = w.a.software_manager
+        x = sm.software[first]
+        if x.operating_state.name == "CLOSED":
+            x.run()
+        if second in areg:
+            _req(w, "software_manager", "application", "install", second)
+        else:
+            sm.install(sreg[second])
+        y = sm.software[second]
+        y.install_duration = 0
+        for t in range(1, 4):  # let an application finish installing
+            w.sim.pre_timestep(t)
+            w.sim.apply_timestep(t)
+        if y.operating_state.name == "CLOSED":
+            y.run()
+    check(y.operating_state.name == "RUNNING", f"{second} could not be brought to RUNNING")
+    with concrete():
+        owner_before = sm.port_protocol_mapping.get((y.port, y.protocol))
+        open_before = y.port in sm.get_open_ports()
+    if pick(["uninstall_first", "stop_first"], how) == "uninstall_first":
+        sm.uninstall(first)
+        cover("uninstalled_first")
+    else:
+        if first in areg:
+            x.close()
+        else:
+            _req(w, "service", first, "stop")
+        cover("stopped_first")
+    check(sm.software.get(second) is y and y.operating_state.name == "RUNNING", f"{second} did not stay RUNNING")
+    check(sm.port_protocol_mapping.get((y.port, y.protocol)) is owner_before, lambda: f"acting on {first} changed the port owner registered for {second}'s port")
+    check((y.port in sm.get_open_ports()) == open_before, lambda: f"acting on {first} changed whether RUNNING {second}'s port {y.port} is reported open")
+    check(y.port in sm.get_open_ports(), lambda: f"RUNNING {second}: port {y.port} not open after {first} was removed/stopped")
+
+
 # ----------------------------------------------------------------------------------------------------------------
 # uninstall / close / power-off with open connections, then re-install
 # ----------------------------------------------------------------------------------------------------------------
@@ -1357,6 +1400,13 @@ HARNESSES = {
             "quick": "1..3 open connections x 4 ways of ending them x optional re-install with install_duration 0..2",
             "thorough": "install_duration 0..4",
         },
+    },
+    "port_survivor": {
+        "fn": port_survivor,
+        "quick": [{"fixed": {}, "timeout": 200}],
+        "thorough": [{"fixed": {}, "timeout": 200}],
+        "cover": ["uninstalled_first", "stopped_first"],
+        "bounds": "7 software pairs sharing a port number; the earlier-installed one uninstalled or stopped/closed",
     },
     "port_sharing": {
         "fn": port_sharing,
